@@ -391,6 +391,11 @@ func getTagType(v reflect.Value) (byte, reflect.Value) {
 
 	switch v.Kind() {
 	case reflect.Array, reflect.Slice:
+		if v.Type().Elem().Kind() == reflect.Interface {
+			// only byte, int and long slices become typed arrays: a slice of interface values is a list,
+			// also when its elements happen to be bytes, ints or longs (it decodes into such a slice again)
+			return TagList, v
+		}
 		var elemType byte
 		if v.Len() > 0 {
 			var elem reflect.Value
